@@ -36,7 +36,7 @@ func (n *nfa) newState() int {
 	return len(n.edges) - 1
 }
 
-func (n *nfa) eps(a, b int)            { n.edges[a] = append(n.edges[a], nfaEdge{-1, -1, b}) }
+func (n *nfa) eps(a, b int)             { n.edges[a] = append(n.edges[a], nfaEdge{-1, -1, b}) }
 func (n *nfa) rng(a, b int, lo, hi int) { n.edges[a] = append(n.edges[a], nfaEdge{lo, hi, b}) }
 
 func clipRune(r rune) int {
